@@ -70,16 +70,22 @@ pub fn run(ctx: &Ctx) -> Result<(), String> {
             for stats in [false, true] {
                 for (di, &d) in delays.iter().enumerate() {
                     let sig = if (di + nw) % 2 == 0 { libc::SIGINT } else { libc::SIGTERM };
-                    let port = free_port();
                     let dir = crate::proc::scratch_dir();
-                    let mut w = Written::base(port);
-                    w.set("num_workers", &nw.to_string());
-                    if stats {
-                        w.set("client_stats", "on");
-                        w.set("persistence_directory", &dir.display().to_string());
-                    }
-                    let mut sp = ServerProc::start(&w, Source::File, &[])?;
-                    sp.wait_started(nw, Duration::from_secs(20));
+                    let dirs = dir.display().to_string();
+                    let (mut sp, port) = crate::proc::start_serving(
+                        &|port| {
+                            let mut w = Written::base(port);
+                            w.set("num_workers", &nw.to_string());
+                            if stats {
+                                w.set("client_stats", "on");
+                                w.set("persistence_directory", &dirs);
+                            }
+                            w
+                        },
+                        Source::File,
+                        nw,
+                        Duration::from_secs(20),
+                    )?;
                     if stats {
                         std::thread::sleep(Duration::from_millis(50));
                     }
@@ -110,11 +116,16 @@ pub fn run(ctx: &Ctx) -> Result<(), String> {
     {
         let plans: Vec<(usize, i32)> = ctx.tier.pick(vec![(2, libc::SIGINT)], vec![(1, libc::SIGINT), (2, libc::SIGTERM), (4, libc::SIGINT), (8, libc::SIGTERM)]);
         for (senders, sig) in plans {
-            let port = free_port();
-            let mut w = Written::base(port);
-            w.set("num_workers", "1");
-            let mut sp = ServerProc::start(&w, Source::File, &[])?;
-            sp.wait_started(1, Duration::from_secs(20));
+            let (mut sp, port) = crate::proc::start_serving(
+                &|port| {
+                    let mut w = Written::base(port);
+                    w.set("num_workers", "1");
+                    w
+                },
+                Source::File,
+                1,
+                Duration::from_secs(20),
+            )?;
             let mut kids = vec![];
             for _ in 0..senders {
                 let c = std::process::Command::new(crate::proc::repo_bin("roughenough-client"))
